@@ -522,6 +522,16 @@ func (sc acctScenario) alphabet(disciplined bool) func(info json.RawMessage, dep
 						}
 						if split {
 							ops = append(ops, Op{K: "update", S: si, MUs: mus, Seq: seq})
+							// the same, the later container reporting its share per direction only (no total)
+							mus2 := make([]MU, len(mus))
+							for i := range mus {
+								mus2[i] = mus[i]
+								mus2[i].Conts = append([]Cont{}, mus[i].Conts...)
+								if len(mus2[i].Conts) == 2 {
+									mus2[i].Conts[1].Vol = 0
+								}
+							}
+							ops = append(ops, Op{K: "update", S: si, MUs: mus2, Seq: seq})
 						}
 					}
 				}
